@@ -17,6 +17,8 @@ type HevcCache struct {
 	cacheGop bool
 	l        sync.RWMutex
 	gop      queue.Queue
+	hasKey   bool        // 已见过关键帧
+	keyTS    uint32      // 最近关键帧的时间戳
 	vps      *rtp.Packet // 视频参数集包
 	sps      *rtp.Packet // 序列参数集包
 	pps      *rtp.Packet // 图像参数集包
@@ -59,6 +61,14 @@ func (cache *HevcCache) CachePack(pack Pack) bool {
 		return false
 	}
 
+	if islice { // 多 slice 关键帧：同一时间戳的后续分片不是新的关键帧起点
+		if cache.hasKey && cache.keyTS == rtppack.Timestamp {
+			islice = false
+		} else {
+			cache.hasKey, cache.keyTS = true, rtppack.Timestamp
+		}
+	}
+
 	if cache.cacheGop { // 需要缓存 GOP
 		if islice { // 关键帧
 			cache.gop.Reset()
@@ -79,6 +89,7 @@ func (cache *HevcCache) Reset() {
 	cache.sps = nil
 	cache.pps = nil
 	cache.gop.Reset()
+	cache.hasKey = false
 }
 
 // PushTo 入列到指定的队列
